@@ -61,7 +61,7 @@ contract(
     verify=False,
     assumed=True,
     bounded=("bounded/state_hashes.py", 40, 600),
-    props=["C13"],
+    props=["C13", "C03"],
     doc="[body not verified: bounded stand-in] for every requested path the returned dict holds the hash of that very path under `name` "
         "(state hits and fresh hashes merged by path); nothing is said about the ORDER of the returned dict",
 )
@@ -103,4 +103,14 @@ contract(
     props=["C01", "C02", "C03"],
     doc="staging a directory's files: every file name is recorded with the digest of that very file, and the (path, oid) "
         "pairs handed to add() are aligned (Named is a call-site obligation)",
+)
+
+contract(
+    "dvc_data.hashfile.db.migrate:prepare",
+    params={},
+    assumed=True, verify=False,
+    bounded=("bounded/migrate_store.py", 60, 1500),
+    props=["C01"],
+    doc="[bounded only] migration (thread pool + partial application: outside the verifier's reach): every migrated object is filed "
+        "under the digest of its own bytes under the DESTINATION's algorithm",
 )
